@@ -22,8 +22,8 @@ from vlib import Check, Broken, log
 T345 = math.degrees(math.atan2(4.0, 3.0))
 ROUTE_DIGITS = 12          # agreement required between evaluation routes of one and the same object
 GEO_DIGITS = 12            # C_aniso(h) = C_iso(unit range)(reduced distance), C(h) = C(-h), ...
-PSD_OK = 1e-9              # lambda_min >= -PSD_OK * n * max|K|   -> class 1
-PSD_NEG = 1e-6             # lambda_min <  -PSD_NEG * max|K|      -> class -1 (clearly negative); between: 0, inconclusive
+PSD_OK = 1e-9              # lambda_min >= -PSD_OK * n * scale    -> class 1     (scale = max|K|, or lambda_max on the increments)
+PSD_NEG = 1e-6             # lambda_min <  -PSD_NEG * scale       -> class -1 (clearly negative); between: 0, inconclusive
 SYM_TOL = 0.0              # K(i,j) = K(j,i) exactly
 
 
@@ -192,6 +192,7 @@ def run(tier):
     phase('offer')
     # ------------------------------------------------------------------ 3. equations
     evals, ekey = [], {}
+    worst_digits = {}
 
     def ev(s, p, d, unit, a, x, direction):
         key = (s, tuple(p), d, unit, tuple(a), tuple(x), direction)
@@ -243,6 +244,8 @@ def run(tier):
                 if key not in route_worst or dg < route_worst[key][0]:
                     route_worst[key] = (dg, e, v)
     for (s, d, mode, r), (dg, e, v) in sorted(route_worst.items()):
+        if dg >= ROUTE_DIGITS:
+            worst_digits["evaluation routes"] = min(worst_digits.get("evaluation routes", 16), dg)
         judge.append(({"k": "eq", "dg": dg, "need": ROUTE_DIGITS},
                       {"kind": "routes", "s": s, "d": d, "mode": mode, "route": r, "default_param": e["p"] == 1.0},
                       {"eval": e, "values_by_route": v[mode], "how": "cov_run value: routes in the order of CROUTES / GROUTES of harness/cov_run.cpp"}))
@@ -266,10 +269,12 @@ def run(tier):
             mag += abs(qf(t["c"]) * prod)
         if bad is not None:
             continue                               # already reported as exception / crash
-        rhs = qf(q["q"]) + sum(l[0] / l[1] * math.log(l[2]) for l in q["lg"]) + sum(x[0] / x[1] * math.exp(x[2] / x[3]) for x in q["ex"])
+        rhs = qf(q["q"]) + sum(l[0] / l[1] * math.log(l[2]) for l in q["lg"]) + sum(x[0] / x[1] * math.exp(x[2] / x[3]) for x in q["ex"]) + qf(q["ip"]) / math.pi
         mag = max(mag, abs(rhs), 1.0)
         dg = digits(abs(lhs - rhs), mag)
         eq_by_cls[q["cls"]] += 1
+        if dg >= q["dg"]:
+            worst_digits["equation:" + q["cls"]] = min(worst_digits.get("equation:" + q["cls"], 16), dg)
         par = sorted(set(f["p"] for f in facs if f["s"] == q["s"]))
         judge.append(({"k": "eq", "dg": dg, "need": q["dg"]},
                       {"kind": "equation", "cls": q["cls"], "s": q["s"], "d": d, "param": par[0] if par else "1", "unit": q["unit"]},
@@ -317,6 +322,8 @@ def run(tier):
             geo_routes.add(name)
             dg = digits(dv["err"], sc)
             t = dv["t"]
+            if dg >= GEO_DIGITS:
+                worst_digits["anisotropy routes"] = min(worst_digits.get("anisotropy routes", 16), dg)
             judge.append(({"k": "geo", "dg": dg, "need": GEO_DIGITS},
                           dict(rec0, kind="aniso", route=name),
                           {"geometry": geom, "h": g["hs"][t] if t >= 0 else None, "reduced_distance2": g["r2"][t] if t >= 0 else None,
@@ -369,7 +376,7 @@ def run(tier):
         if o is None:
             continue
         pq = q.get("pq", [1, 1])
-        rec0 = {"kind": q["k"], "s": q["s"], "d": q["d"], "param": pstr(pq), "ob": q["ob"]}
+        rec0 = {"kind": q["k"], "s": q["s"], "d": q["d"], "param": pstr(pq), "ob": q["ob"], "range_ge_100": q["range"] >= 100}
         if q["k"] == "mix":
             rec0.update(s2=q["s2"], nv=q["nv"])
         desc = {"plan": {k: v for k, v in q.items() if k not in ("id",)}, "points": psets[q["ps"]]["pts"] if len(psets[q["ps"]]["pts"]) <= 64 else "point set %s of MC_CovStructures" % q["ps"],
@@ -380,18 +387,23 @@ def run(tier):
             continue
         psd_dims[q["s"]].add(q["d"])
         largest_n = max(largest_n, o["n"])
-        ratio = o["lmin"] / max(o["maxabs"], 1e-300)
-        cls = 1 if ratio >= -PSD_OK * o["n"] else (-1 if ratio < -PSD_NEG else 0)
+        # scale of the spectrum: max|K| = C(0) for a covariance; for a generalised covariance K carries arbitrary
+        # filtered constants, the scale is the largest eigenvalue of the projected matrix; floor = round-off of
+        # the assembly / projection
+        floor = 1e-12 * o["n"] * o["maxabs"]
+        scale = o["maxabs"] if q["ord"] < 0 else max(o["lmax"], 0.0)
+        ratio = o["lmin"] / max(scale, floor, 1e-300)
+        cls = 1 if o["lmin"] >= -(PSD_OK * o["n"] * scale + floor) else (-1 if o["lmin"] < -(PSD_NEG * scale + 10 * floor) else 0)
         sym = 1 if o["symdiff"] <= SYM_TOL and digits(o["routediff"], max(1.0, o["maxabs"])) >= 13 else 0
         cls_count[(q["ob"], cls)] += 1
         if cls == 0 and q["ob"] in ("psd", "cpsd"):
-            inconclusive.append({"s": q["s"], "d": q["d"], "param": pstr(pq), "ps": q["ps"], "rf": pstr(q["rf"]), "lmin/max|K|": ratio, "n": o["n"]})
+            inconclusive.append({"s": q["s"], "d": q["d"], "param": pstr(pq), "ps": q["ps"], "rf": pstr(q["rf"]), "lmin/scale": ratio, "n": o["n"]})
         key = (q["s"], pstr(pq), q["d"], q["ob"], q["k"])
         if key not in worst or ratio < worst[key][0]:
             worst[key] = (ratio, q, o)
         judge.append(({"k": q["k"], "s": q["s"], "pn": pq[0], "pd": pq[1], "d": q["d"], "sym": sym, "cls": cls, "ob": q["ob"]},
                       rec0, dict(desc, n=o["n"], lambda_min=o["lmin"], lambda_max=o["lmax"], max_abs_K=o["maxabs"],
-                                 lambda_min_over_maxK=ratio, symdiff=o["symdiff"], routediff=o["routediff"], filtered=o["nfiltered"])))
+                                 lambda_min_over_scale=ratio, symdiff=o["symdiff"], routediff=o["routediff"], filtered=o["nfiltered"])))
 
     phase('psd')
     # ------------------------------------------------------------------ 6. TLC judges every record
@@ -415,7 +427,7 @@ def run(tier):
         if key not in groups:
             groups[key] = [what, bad, rec, detail, 0]
         groups[key][4] += 1
-        if what["kind"] in ("psd", "mix") and detail["lambda_min_over_maxK"] < groups[key][3]["lambda_min_over_maxK"]:
+        if what["kind"] in ("psd", "mix") and detail["lambda_min_over_scale"] < groups[key][3]["lambda_min_over_scale"]:
             groups[key][2], groups[key][3] = rec, detail
     for what, bad, rec, detail, n in groups.values():
         d = dict(what)
@@ -425,7 +437,7 @@ def run(tier):
             wk = (what["s"], what["param"], what["d"], "invalid", "psd")
             if wk in worst:
                 ratio, q, o = worst[wk]
-                detail = dict(detail=detail, numerical_confirmation={"lambda_min_over_maxK": ratio, "plan": {k: v for k, v in q.items() if k != "id"},
+                detail = dict(detail=detail, numerical_confirmation={"lambda_min_over_scale": ratio, "plan": {k: v for k, v in q.items() if k != "id"},
                                                                       "points": psets[q["ps"]]["pts"], "n": o["n"]})
                 d["confirmed_numerically"] = ratio < -PSD_NEG
         ck.disagree(d, {"record": rec, "occurrences": n, "detail": detail})
@@ -472,13 +484,14 @@ def run(tier):
     ck.cov["anisotropy_runs"] = len(gouts)
     ck.cov["anisotropy_relations_judged"] = ngeo
     ck.cov["anisotropy_routes"] = sorted(geo_routes)
+    ck.cov["worst_digits_among_accepted"] = worst_digits
     ck.cov["psd_runs"] = len(pmap)
     ck.cov["psd_largest_matrix"] = largest_n
     ck.cov["psd_classes"] = {"%s:%d" % k: v for k, v in sorted(cls_count.items())}
     ck.cov["psd_inconclusive"] = inconclusive[:40]
     ck.cov["psd_most_negative_by_obligation"] = {
-        ob: sorted(({"s": k[0], "param": k[1], "d": k[2], "lmin/max|K|": v[0], "ps": v[1]["ps"], "rf": pstr(v[1]["rf"])}
-                    for k, v in worst.items() if k[3] == ob), key=lambda x: x["lmin/max|K|"])[:12]
+        ob: sorted(({"s": k[0], "param": k[1], "d": k[2], "lmin/scale": v[0], "ps": v[1]["ps"], "rf": pstr(v[1]["rf"])}
+                    for k, v in worst.items() if k[3] == ob), key=lambda x: x["lmin/scale"])[:12]
         for ob in ("psd", "cpsd", "invalid", "unclaimed")}
     ck.cov["catalogue_invalid_confirmed_numerically"] = ["%s p=%s d=%d (%d point sets)" % (k[0], k[1], k[2], v) for k, v in sorted(confirmed.items())]
     ck.cov["records_judged_by_tlc"] = len(judge)
@@ -489,7 +502,8 @@ def run(tier):
                       "anisotropy geometry x every structure with a range x shape-parameter grid x 24 construction / evaluation routes; "
                       "every (structure, parameter, dimension, range class, anisotropy preset, point set) plan. Real numbers are "
                       "integerised (digits of agreement relative to max(1, magnitude of the terms); eigenvalue class 1 if "
-                      "lambda_min >= -1e-9 n max|K|, -1 if < -1e-6 max|K|, else 0 = inconclusive, reported, not a violation) and "
+                      "lambda_min >= -1e-9 n S, -1 if < -1e-6 S, else 0 = inconclusive, reported, not a violation; S = max|K| for "
+                      "covariances, the largest eigenvalue of the projected matrix for generalised covariances, plus a round-off floor 1e-12 n max|K|) and "
                       "every record is judged by TLC (JudgeCovStructures). evaluations = route values + anisotropy relations + matrices")
     ck.assumptions += [
         "offered in dimension d = listed by CovFactory::getCovList(CovContext(1, d)) (the constructors refuse nothing, see known finding)",
